@@ -685,6 +685,7 @@ pub fn features() -> wasmparser::WasmFeatures {
         | F::BULK_MEMORY
         | F::REFERENCE_TYPES
         | F::MULTI_VALUE
+        | F::SHARED_EVERYTHING_THREADS
 }
 
 pub fn validate(bytes: &[u8]) -> Result<(), String> {
